@@ -18,6 +18,9 @@ from vlib import core, flow
 FAMILIES = ["best", "bose_nelson", "bose_nelson_parameter"]
 ENTRIES = ["direct", "dispatch"]
 KINDS = ["ptr", "rev", "deque", "stride"]
+# comparator carriers (pointer runs): std::function lvalue / temporary, heap-owning move-sensitive comparator object
+# lvalue / temporary / default-constructed; rk = order by the object's rank table
+CARRIER_ORDS = ["fn-lt", "fn-gt", "fnt-q4", "fnt-lt", "own-rk", "own-q4", "ownt-rk", "ownt-gt", "own-lt"]
 GEN = os.path.join(core.LEAN, "TlxVerif", "Gen", "C15Networks.lean")
 
 
@@ -95,11 +98,22 @@ class C15(flow.Spec):
     # ------------------------------------------------------------------ A translator
     def translator(self, ctx):
         probs = []
-        exe = os.path.join(ctx.work, "extract")
-        rc, o, e = core.sh([core.CXX, "-std=gnu++17", "-O1", "-I" + core.REPO,
-                            os.path.join(core.VERIF, "tools", "c15_extract_networks.cpp"), "-o", exe], timeout=900)
-        if rc != 0:
-            return ["extractor does not compile against the tree: " + (o + e)[-1500:]]
+        # compiled against the working tree; cached by the content hash of tlx/, the tool and the shared entry header
+        # (an edit to any of them recompiles, exactly like the harness)
+        import hashlib
+        h = hashlib.sha256(core.repo_hash().encode())
+        for fn in (os.path.join(core.VERIF, "tools", "c15_extract_networks.cpp"), os.path.join(core.VERIF, "harness", "c15_entry.hpp")):
+            h.update(open(fn, "rb").read())
+        exe = os.path.join(ctx.work, "extract-" + h.hexdigest()[:16])
+        if not os.path.exists(exe):
+            for old in os.listdir(ctx.work):
+                if old.startswith("extract-"):
+                    os.remove(os.path.join(ctx.work, old))
+            rc, o, e = core.sh([core.CXX, "-std=gnu++17", "-O1", "-I" + core.REPO,
+                                os.path.join(core.VERIF, "tools", "c15_extract_networks.cpp"), "-o", exe + ".tmp"], timeout=900)
+            if rc != 0:
+                return ["extractor does not compile against the tree: " + (o + e)[-1500:]]
+            os.replace(exe + ".tmp", exe)
         tmp = os.path.join(ctx.work, "C15Networks.lean.new")
         if os.path.exists(tmp):
             os.remove(tmp)
@@ -162,6 +176,20 @@ class C15(flow.Spec):
         rng = random.Random(seed * 1000003 + round_no * 7919 + 15)
         cs = []
         orders = ["lt", "gt", "q4"] + ([] if self._probe_default() else ["def"])
+        carrier_ords = CARRIER_ORDS + ([] if self._probe_default() else ["ownd"])
+        if round_no == 0:
+            # every family x entry point x n with every comparator carrier (a moved-from functor only matters where a
+            # network hands its cswap on twice, e.g. sort16 = sort8, sort8, merge8_8)
+            for f in FAMILIES:
+                for e in ENTRIES:
+                    lines = [f"case carriers-{f}-{e}"]
+                    for n in range(17):
+                        if not entry_exists(e, n):
+                            continue
+                        for o in ["fn-lt", "fnt-q4", "own-rk", "ownt-rk", "own-lt"] + ([] if self._probe_default() else ["ownd"]):
+                            ks = self._keys(rng, n)
+                            lines.append(f"run {f} {e} {n} {o} " + (",".join(map(str, ks)) if ks else "-"))
+                    cs.append(lines)
         if round_no == 0:
             # every zero-one input of every entry point (the quantifier of the property after the
             # zero-one principle) — cheap enough for both tiers
@@ -194,7 +222,9 @@ class C15(flow.Spec):
                     e = "dispatch"
                 o = rng.choice(orders)
                 ks = self._keys(rng, n)
-                head = "run" if rng.random() < 0.3 else f"runi {rng.choice(KINDS)} {rng.randrange(16)}"
+                head = "run" if rng.random() < 0.45 else f"runi {rng.choice(KINDS)} {rng.randrange(16)}"
+                if head == "run" and rng.random() < 0.5:
+                    o = rng.choice(carrier_ords)
                 lines.append(f"{head} {f} {e} {n} {o} " + (",".join(map(str, ks)) if ks else "-"))
             cs.append(lines)
         return cs
@@ -207,6 +237,8 @@ class C15(flow.Spec):
                 ok = True
             if t[0] == "runi":
                 t = ["run"] + t[3:]
+            if a.startswith("exception"):
+                continue
             if t[0] == "run" and int(t[3]) >= 2 and ":" in a:
                 tags = [x.rsplit(":", 1)[1] for x in a.split(",")]
                 if tags != [str(i) for i in range(len(tags))]:
